@@ -236,6 +236,15 @@ class PersistScenario(StateScenario):
         op["cfg"] = 0
         return op
 
+    def gen_set(self, st, rng, cfg, tgts, cfgpaths, owners):
+        op = super().gen_set(st, rng, cfg, tgts, cfgpaths, owners)
+        if op and rng.random() < 0.12:
+            # explicitly clearing a field is a valid state too (None is accepted unless the field is required)
+            t = next((t for t in tgts if t.path == op["path"]), None)
+            if t is not None and not schema.is_cfg_node(t.node) and not t.node.get("o", {}).get("required") and t.node["kind"] not in ("virtual", "method"):
+                op["v"] = None
+        return op
+
     def gen_save(self, st, rng, cfg, tgts, cfgpaths, owners):
         fmt = rng.choice(st.h["formats"])
         opts = {}
